@@ -19,6 +19,8 @@ def main():
   ap.add_argument("--only", default="")
   ap.add_argument("--tier", default="quick")
   ap.add_argument("--seed", default="0")
+  ap.add_argument("--shard", default="", help="i/n: run every n-th seeded change starting at i, writing results.shard<i>.json")
+  ap.add_argument("--merge", action="store_true", help="merge results.shard*.json into results.json and write README.md")
   args = ap.parse_args()
   claimed = [c["property_id"] for c in json.load(open(os.path.join(VERIF, "MANIFEST.json")))["checks"]]
   results = {}
@@ -28,6 +30,19 @@ def main():
   ids = sorted(d for d in os.listdir(SEEDED) if os.path.isdir(os.path.join(SEEDED, d)))
   if args.only:
     ids = [i for i in ids if i in args.only.split(",")]
+  if args.merge:
+    import glob
+    for f in sorted(glob.glob(os.path.join(SEEDED, "results.shard*.json"))):
+      results.update(json.load(open(f)))
+      os.remove(f)
+    results = {k: v for k, v in results.items() if os.path.isdir(os.path.join(SEEDED, k))}
+    json.dump(results, open(respath, "w"), indent=1)
+    ids = []
+  if args.shard:
+    i, n = (int(x) for x in args.shard.split("/"))
+    ids = ids[i::n]
+    respath = os.path.join(SEEDED, "results.shard%d.json" % i)
+    results = {}
   for sid in ids:
     d = os.path.join(SEEDED, sid)
     meta = json.load(open(os.path.join(d, "meta.json")))
@@ -58,6 +73,8 @@ def main():
       for x in ("ev_", "work_", "replays_"):
         shutil.rmtree("/tmp/seedrun/%s%s" % (x, sid), ignore_errors=True)
     json.dump(results, open(respath, "w"), indent=1)
+  if args.shard:
+    return
   # README table
   lines = ["# Seeded changes and the checks that catch them", "",
            "Each directory holds `patch.diff` (a change to /repo that breaks a property while the 519 baseline tests keep passing), the", 
